@@ -114,6 +114,10 @@ type Env struct {
 	SavedTables int
 	downObj *litestream.DB // stopped DB object (IPC stop), for upsame
 	bgDone  chan error     // concurrent writer in flight
+	RawSaved bool
+	RawK int
+	RawLedger []string
+	RawTables int
 	Acked   int    // number of acknowledged instants checked
 	Trace   []string
 	restoreN int
